@@ -528,4 +528,373 @@ theorem parseLink_top_G (hB : BackOK B) (hend : EndHyp cfg B src Mtop) (hmarks :
   parseLink_top hend (skipTokenG_calm cfg true f) (skipTokenG_T cfg f) (skip_grow cfg f)
     (skip_top hB hend hmarks f) fuel st pos en hi hb hle hch ht
 
+/-! # PART 2 — real mode in the top frame: guarded = model, generic in the nested-entry predicate -/
+
+/-- at the states satisfying `P` the two nested tokenizers agree, and the (first) one leaves memo and
+    text alone, only grows `inside_failed`, and keeps the code-span cache invariant -/
+def TokEqAt (B : List Char → CodePair.Cache → Prop) (P : IState → Prop)
+    (tokG tokM : IState → Except Panic IState) : Prop :=
+  ∀ s, P s → tokG s = tokM s ∧
+    ∀ s', tokG s = .ok s' → s'.cache = s.cache ∧ s'.src = s.src ∧
+      InsideSub s.backticks s'.backticks ∧ (B s.src s.backticks → B s'.src s'.backticks)
+
+/-- the real link rule of the top frame enters nested frames only at `P`-states (`nestedState` is the
+    one of `Lemmas/MemoSafeLamTop.lean`) -/
+def EntryP (cfg : Cfg) (B : List Char → CodePair.Cache → Prop) (src : List Char) (Mtop : Nat)
+    (skipG : IState → Except Panic IState) (P : IState → Prop) : Prop :=
+  ∀ (lo : Nat) (st : IState) (offset : Nat) (en : Bool) (fuel : Nat) (res : LinkRes) (st1 : IState),
+    Good lo st → MemoB st → TopInv cfg B src Mtop st →
+    Boundary st.src (st.pos + offset + 1) → st.pos + offset + 1 ≤ st.posMax →
+    (∃ r, slice st.src (st.pos + offset) st.posMax = .ok ('[' :: r)) →
+    parseLink cfg skipG fuel st (st.pos + offset) en = .ok (some res, st1) →
+    TopInv cfg B src Mtop st1 → P (nestedState st1 res)
+
+theorem linkRule_real_top (hend : EndHyp cfg B src Mtop)
+    {skipG skipM tokG tokM : IState → Except Panic IState}
+    {P : IState → Prop} (hq : CalmFn skipG) (hs : SkipHypT skipG) (hgr : SkipGrowHyp skipG)
+    (hT : SkipTopHyp cfg B src Mtop skipG) (he : SkipEqHyp skipG skipM)
+    (hte : TokEqAt B P tokG tokM) (hP : EntryP cfg B src Mtop skipG P) (fuel : Nat)
+    (mk : List Nat → Option (List Char) → Val) (en : Bool) (offset : Nat) {lo : Nat} (st : IState)
+    (hg : Good lo st) (hm : MemoB st) (hb : Boundary st.src (st.pos + offset + 1))
+    (hle : st.pos + offset + 1 ≤ st.posMax)
+    (hch : ∃ r, slice st.src (st.pos + offset) st.posMax = .ok ('[' :: r))
+    (htop : TopInv cfg B src Mtop st) :
+    linkRule cfg skipG tokG fuel mk en offset st false =
+      linkRule cfg skipM tokM fuel mk en offset st false ∧
+    ∀ o st', linkRule cfg skipG tokG fuel mk en offset st false = .ok (o, st') →
+      TopInv cfg B src Mtop st' := by
+  have hi := hg.linv hm
+  have hpl := parseLink_eq (cfg := cfg) hq hs he fuel st (st.pos + offset) 0 en hi hb hle htop.closed
+    (Nat.zero_le _)
+  have hplTop := parseLink_top (cfg := cfg) hend hq hs hgr hT fuel st (st.pos + offset) en hi hb hle
+    hch htop
+  unfold linkRule
+  simp only
+  rw [← hpl.1]
+  cases hp : parseLink cfg skipG fuel st (st.pos + offset) en with
+  | error e => exact ⟨rfl, by intro o st' h; simp at h⟩
+  | ok p =>
+    obtain ⟨o1, st1⟩ := p
+    have ht1 := hplTop _ _ hp
+    cases o1 with
+    | none =>
+      simp only
+      refine ⟨by trivial, ?_⟩
+      intro o st' h
+      simp only [Except.ok.injEq, Prod.mk.injEq] at h; obtain ⟨_, rfl⟩ := h
+      exact ht1
+    | some res =>
+      have hPs : P (nestedState st1 res) :=
+        hP lo st offset en fuel res st1 hg hm htop hb hle hch hp ht1
+      obtain ⟨heq, hpost⟩ := hte _ hPs
+      unfold nestedState at heq hpost
+      simp only [Bool.false_eq_true, if_false]
+      rw [← heq]
+      cases hG : tokG (IState.mk st1.src st1.srcmap res.labelStart res.labelEnd
+          (st1.level + 1) (st1.linkLevel + 1) st1.cache st1.backticks [] []) with
+      | error e => exact ⟨by trivial, by intro o st' h; simp at h⟩
+      | ok st3 =>
+        simp only
+        refine ⟨by trivial, ?_⟩
+        obtain ⟨hc3, hsrc3, hsub3, hb3⟩ := hpost st3 hG
+        intro o st' h
+        split at h
+        · simp at h
+        · split at h
+          · simp at h
+          · split at h
+            · simp at h
+            · simp only [Except.ok.injEq, Prod.mk.injEq] at h; obtain ⟨_, rfl⟩ := h
+              exact ht1.transfer hsrc3 rfl hc3 hsub3 (hb3 ht1.back)
+
+theorem runRule_real_top (hB : BackOK B) (hend : EndHyp cfg B src Mtop)
+    {skipG skipM tokG tokM : IState → Except Panic IState}
+    {P : IState → Prop} (hq : CalmFn skipG) (hs : SkipHypT skipG) (hgr : SkipGrowHyp skipG)
+    (hT : SkipTopHyp cfg B src Mtop skipG) (he : SkipEqHyp skipG skipM)
+    (hte : TokEqAt B P tokG tokM) (hP : EntryP cfg B src Mtop skipG P) (fuel : Nat) (id : RuleId)
+    {lo : Nat} (st : IState) (hg : Good lo st) (hm : MemoB st) (hlt : st.pos < st.posMax)
+    (htop : TopInv cfg B src Mtop st) :
+    runRule cfg skipG tokG fuel id st false = runRule cfg skipM tokM fuel id st false ∧
+    ∀ o st', runRule cfg skipG tokG fuel id st false = .ok (o, st') → TopInv cfg B src Mtop st' := by
+  by_cases hflat : id.isFlat = true
+  · constructor
+    · unfold runRule
+      cases id with
+      | link => simp [RuleId.isFlat] at hflat
+      | image => simp [RuleId.isFlat] at hflat
+      | _ => rfl
+    · intro o st' h
+      exact runRule_flat_top hB hflat h htop
+  · have hi := hg.linv hm
+    obtain ⟨w, hw, hsl, hlen⟩ := hi.window
+    cases id with
+    | link =>
+      unfold runRule
+      simp only
+      unfold ruleLink
+      rw [hw]
+      simp only [liftR]
+      cases w with
+      | nil => simp only [byteLen] at hlen; omega
+      | cons c rest =>
+        simp only
+        by_cases hcb : c = '['
+        · subst hcb
+          simp only [ne_eq, not_true_eq_false, if_false]
+          obtain ⟨hb, hle⟩ := after_first (by decide) hsl
+          exact linkRule_real_top hend hq hs hgr hT he hte hP fuel Val.link false 0 st hg hm hb hle
+            ⟨rest, hsl⟩ htop
+        · simp only [ne_eq, hcb, not_false_eq_true, if_true]
+          refine ⟨by trivial, ?_⟩
+          intro o st' h
+          simp only [Except.ok.injEq, Prod.mk.injEq] at h; obtain ⟨_, rfl⟩ := h
+          exact htop
+    | image =>
+      unfold runRule
+      simp only
+      unfold ruleImage
+      rw [hw]
+      simp only [liftR]
+      split
+      · next e heq => simp at heq
+      · next r heq =>
+        simp only [Except.ok.injEq] at heq
+        subst heq
+        obtain ⟨hb, hle⟩ := after_second (by decide) (by decide) hsl
+        exact linkRule_real_top hend hq hs hgr hT he hte hP fuel Val.image true 1 st hg hm hb hle
+          ⟨r, Inline.slice_tail_of_cons (by decide) hsl⟩ htop
+      · refine ⟨by trivial, ?_⟩
+        intro o st' h
+        simp only [Except.ok.injEq, Prod.mk.injEq] at h; obtain ⟨_, rfl⟩ := h
+        exact htop
+    | _ => simp [RuleId.isFlat] at hflat
+
+theorem firstRule_real_top (hB : BackOK B) (hend : EndHyp cfg B src Mtop)
+    (hsz : ∀ mk csw, RuleId.emph mk csw ∈ cfg.chain → mk.utf8Size = 1)
+    {skipG skipM tokG tokM : IState → Except Panic IState} {P : IState → Prop}
+    (hq : CalmFn skipG) (hs : SkipHypT skipG) (hgr : SkipGrowHyp skipG)
+    (hT : SkipTopHyp cfg B src Mtop skipG)
+    (he : SkipEqHyp skipG skipM) (ht : TokHypT tokG) (hr : RangesFn tokG)
+    (hte : TokEqAt B P tokG tokM) (hP : EntryP cfg B src Mtop skipG P) (fuel : Nat) {lo : Nat} :
+    ∀ (rules : List RuleId), (∀ id ∈ rules, id ∈ cfg.chain) →
+      ∀ (st : IState), Good lo st → MemoB st → st.pos < st.posMax → TopInv cfg B src Mtop st →
+      firstRule (fun id s => runRule cfg skipG tokG fuel id s false) rules st =
+        firstRule (fun id s => runRule cfg skipM tokM fuel id s false) rules st ∧
+      ∀ o st', firstRule (fun id s => runRule cfg skipG tokG fuel id s false) rules st = .ok (o, st') →
+        TopInv cfg B src Mtop st' := by
+  intro rules
+  induction rules with
+  | nil =>
+    intro _ st _ _ _ htop
+    unfold firstRule
+    refine ⟨rfl, ?_⟩
+    intro o st' h
+    simp only [Except.ok.injEq, Prod.mk.injEq] at h; obtain ⟨_, rfl⟩ := h
+    exact htop
+  | cons r rs ih =>
+    intro hall st hg hm hlt htop
+    obtain ⟨e1, n1⟩ := runRule_real_top hB hend hq hs hgr hT he hte hP fuel r st hg hm hlt htop
+    have hRT := runRule_real_T hsz hq hs ht hr fuel (hall r (by simp)) st hg hm hlt
+    unfold firstRule
+    rw [← e1]
+    cases hrG : runRule cfg skipG tokG fuel r st false with
+    | error e => exact ⟨rfl, by intro o st' h; simp at h⟩
+    | ok p =>
+      obtain ⟨o1, st1⟩ := p
+      have ht1 := n1 o1 st1 hrG
+      cases o1 with
+      | some n =>
+        simp only
+        refine ⟨by trivial, ?_⟩
+        intro o st' h
+        simp only [Except.ok.injEq, Prod.mk.injEq] at h; obtain ⟨_, rfl⟩ := h
+        exact ht1
+      | none =>
+        simp only
+        have s1 := hRT.ok _ _ hrG
+        have hg1 : Good lo st1 := Good.of_add_zero (by simpa using s1.good)
+        have hp1 := s1.nonePos rfl
+        exact ih (fun id hid => hall id (List.mem_cons_of_mem _ hid)) st1 hg1 s1.memo
+          (by rw [hp1, s1.frame.posMax]; exact hlt) ht1
+
+/-- **in the top frame one iteration of the guarded tokenizer loop is one iteration of the model's** -/
+theorem tokStep_top (hB : BackOK B) (hend : EndHyp cfg B src Mtop)
+    (hsz : ∀ mk csw, RuleId.emph mk csw ∈ cfg.chain → mk.utf8Size = 1)
+    {skipG skipM tokG tokM : IState → Except Panic IState} {P : IState → Prop}
+    (hq : CalmFn skipG) (hs : SkipHypT skipG) (hgr : SkipGrowHyp skipG)
+    (hT : SkipTopHyp cfg B src Mtop skipG)
+    (he : SkipEqHyp skipG skipM) (ht : TokHypT tokG) (hr : RangesFn tokG)
+    (hte : TokEqAt B P tokG tokM) (hP : EntryP cfg B src Mtop skipG P) (fuel : Nat) {lo : Nat}
+    (st : IState) (hg : Good lo st) (hm : MemoB st) (hlt : st.pos < st.posMax)
+    (htop : TopInv cfg B src Mtop st) :
+    tokStep cfg skipG tokG fuel st = tokStep cfg skipM tokM fuel st ∧
+    ∀ st', tokStep cfg skipG tokG fuel st = .ok st' → TopInv cfg B src Mtop st' := by
+  -- the fall-back keeps the invariant
+  have hfall : ∀ (st1 st' : IState), TopInv cfg B src Mtop st1 →
+      (match firstChar st1 with
+        | .error e => .error e
+        | .ok ch =>
+          match liftR (st1.pushText st1.pos (st1.pos + ch.utf8Size)) with
+          | .error e => .error e
+          | .ok st'' => .ok { st'' with pos := st''.pos + ch.utf8Size }) = (.ok st' : Except Panic IState) →
+      TopInv cfg B src Mtop st' := by
+    intro st1 st' ht1 h
+    split at h
+    · simp at h
+    · next ch _ =>
+      split at h
+      · simp at h
+      · next st2 hp =>
+        simp only [Except.ok.injEq] at h; subst h
+        obtain ⟨cs, _, rfl⟩ := pushText_eq (liftR_ok.mp hp)
+        exact ht1.of_eq rfl rfl rfl rfl
+  unfold tokStep
+  simp only
+  by_cases hl : st.level < cfg.maxNesting
+  · simp only [if_pos hl]
+    obtain ⟨e1, n1⟩ := firstRule_real_top hB hend hsz hq hs hgr hT he ht hr hte hP fuel cfg.chain
+      (fun _ h => h) st hg hm hlt htop
+    rw [← e1]
+    cases hfG : firstRule (fun id s => runRule cfg skipG tokG fuel id s false) cfg.chain st with
+    | error e => exact ⟨rfl, by intro st' h; simp at h⟩
+    | ok p =>
+      obtain ⟨o1, st1⟩ := p
+      have ht1 := n1 o1 st1 hfG
+      cases o1 with
+      | some len =>
+        simp only
+        refine ⟨by trivial, ?_⟩
+        intro st' h
+        simp only [Except.ok.injEq] at h; subst h
+        exact ht1.of_eq rfl rfl rfl rfl
+      | none =>
+        simp only
+        exact ⟨by trivial, fun st' h => hfall st1 st' ht1 h⟩
+  · simp only [if_neg hl]
+    exact ⟨by trivial, fun st' h => hfall st st' htop h⟩
+
+/-! # PART 3 — the loop and the parser -/
+
+/-- **in the top frame the guarded tokenizer IS the model tokenizer**, at every fuel, provided the
+    nested label runs agree at the `P`-states and the link rule enters nested frames only there -/
+theorem top_total (hB : BackOK B) (hend : EndHyp cfg B src Mtop) (hmarks : MarksHyp cfg B)
+    (hsz : ∀ mk csw, RuleId.emph mk csw ∈ cfg.chain → mk.utf8Size = 1) {P : IState → Prop}
+    (hNE : ∀ f, TokEqAt B P (fun s => tokLoopG cfg true f s.posMax s)
+      (fun s => tokLoop cfg f s.posMax s))
+    (hP : ∀ f, EntryP cfg B src Mtop (fun s => skipTokenG cfg true f s) P) :
+    ∀ (fuel lo : Nat) (st : IState), Good lo st → MemoB st → TopInv cfg B src Mtop st →
+      tokLoopG cfg true fuel st.posMax st = tokLoop cfg fuel st.posMax st ∧
+      ∀ st', tokLoopG cfg true fuel st.posMax st = .ok st' → TopInv cfg B src Mtop st' := by
+  intro fuel
+  induction fuel with
+  | zero =>
+    intro lo st hg hm htop
+    unfold tokLoopG tokLoop
+    by_cases hlt : st.pos < st.posMax
+    · simp only [if_pos hlt]
+      exact ⟨by trivial, by intro st' h; simp at h⟩
+    · simp only [if_neg hlt]
+      refine ⟨by trivial, ?_⟩
+      intro st' h
+      simp only [Except.ok.injEq] at h; subst h
+      exact htop
+  | succ f ih =>
+    intro lo st hg hm htop
+    unfold tokLoopG tokLoop
+    by_cases hlt : st.pos < st.posMax
+    · simp only [if_pos hlt]
+      have hq := skipTokenG_calm cfg true f
+      have hsT := skipTokenG_T cfg f
+      have hr := rangesFnG cfg true f
+      have ht : TokHypT (fun s => tokLoopG cfg true f s.posMax s) :=
+        fun lo s hg hm => ((guarded_total cfg hsz f).2 lo s hg hm).tokT
+      obtain ⟨e1, n1⟩ := tokStep_top hB hend hsz hq hsT (skip_grow cfg f) (skip_top hB hend hmarks f)
+        (skip_guard_free cfg f) ht hr (hNE f) (hP f) f st hg hm hlt htop
+      rw [← e1]
+      cases hsG : tokStep cfg (fun s => skipTokenG cfg true f s)
+          (fun s => tokLoopG cfg true f s.posMax s) f st with
+      | error e => exact ⟨rfl, by intro st' h; simp at h⟩
+      | ok st1 =>
+        simp only
+        obtain ⟨hg1, hm1, f1, _⟩ := (tokStep_T hsz hq hsT ht hr f st hg hm hlt).2 st1 hsG
+        have hrec := ih lo st1 hg1 hm1 (n1 st1 hsG)
+        rw [f1.posMax] at hrec
+        exact hrec
+    · simp only [if_neg hlt]
+      refine ⟨by trivial, ?_⟩
+      intro st' h
+      simp only [Except.ok.injEq] at h; subst h
+      exact htop
+
+theorem topInv_init {content : List Char} {mapping : Srcmap}
+    (hB0 : B content CodePair.Cache.empty)
+    (hnc : CodePair.NoCut '`' content (IState.init content mapping).posMax) :
+    TopInv cfg B content (IState.init content mapping).posMax (IState.init content mapping) :=
+  ⟨rfl, rfl, hB0, by intro k v h; simp [IState.init] at h, by
+    intro k v h; simp [IState.init] at h, hnc, by intro _ p hp; simp [IState.init] at hp⟩
+
+/-- **the guarded inline parser IS the model inline parser** (same tree, same error), under the
+    hypotheses on the nested frames and on the text -/
+theorem parseInlineG_eq (hB : BackOK B)
+    (hsz : ∀ mk csw, RuleId.emph mk csw ∈ cfg.chain → mk.utf8Size = 1) {P : IState → Prop}
+    {content : List Char} {mapping : Srcmap} (hm : MapOK content mapping)
+    (hB0 : B content CodePair.Cache.empty)
+    (hnc : CodePair.NoCut '`' content (IState.init content mapping).posMax)
+    (hend : EndHyp cfg B content (IState.init content mapping).posMax) (hmarks : MarksHyp cfg B)
+    (hNE : ∀ f, TokEqAt B P (fun s => tokLoopG cfg true f s.posMax s)
+      (fun s => tokLoop cfg f s.posMax s))
+    (hP : ∀ f, EntryP cfg B content (IState.init content mapping).posMax
+      (fun s => skipTokenG cfg true f s) P) :
+    parseInlineG cfg content mapping = parseInline cfg content mapping := by
+  obtain ⟨lo, _, hg⟩ := init_good hm
+  have := (top_total hB hend hmarks hsz hNE hP (topFuel cfg content) lo _ hg
+    (memoB_init' content mapping) (topInv_init hB0 hnc)).1
+  unfold parseInlineG parseInline tokenize
+  rw [this]
+  generalize tokLoop cfg _ _ _ = r
+  cases r <;> rfl
+
+/-- **`parseInline` is total** under the hypotheses on the nested frames and on the text: the guarded
+    parser cannot panic (`Inline.parseInlineG_noRust`), the model parser cannot run out of fuel, and
+    they are equal -/
+theorem parseInline_total_of_nested (hB : BackOK B)
+    (hsz : ∀ mk csw, RuleId.emph mk csw ∈ cfg.chain → mk.utf8Size = 1) {P : IState → Prop}
+    {content : List Char} {mapping : Srcmap} (hm : MapOK content mapping)
+    (hB0 : B content CodePair.Cache.empty)
+    (hnc : CodePair.NoCut '`' content (IState.init content mapping).posMax)
+    (hend : EndHyp cfg B content (IState.init content mapping).posMax) (hmarks : MarksHyp cfg B)
+    (hNE : ∀ f, TokEqAt B P (fun s => tokLoopG cfg true f s.posMax s)
+      (fun s => tokLoop cfg f s.posMax s))
+    (hP : ∀ f, EntryP cfg B content (IState.init content mapping).posMax
+      (fun s => skipTokenG cfg true f s) P) :
+    ∃ cs, parseInline cfg content mapping = .ok cs := by
+  have heq := parseInlineG_eq hB hsz hm hB0 hnc hend hmarks hNE hP
+  have hnr := Inline.parseInlineG_noRust cfg hsz hm
+  cases h : parseInline cfg content mapping with
+  | ok cs => exact ⟨cs, rfl⟩
+  | error e =>
+    cases e with
+    | fuel => exact absurd h (parseInline_fuel cfg content mapping)
+    | rust p => exact absurd (heq.trans h) (hnr p)
+
+/-! ## examples -/
+
+/-- PART 1 is not vacuous: the initial state of every inline run whose `pos_max` does not cut a
+    backtick run meets `TopInv` (for `B := BC`, `backOK_BC`), and so does the state behind the first
+    guarded look-ahead step — `IFP` of the initial state holds when the run does not start strictly
+    inside a backtick run -/
+example (cfg : Cfg) (fuel : Nat) {content : List Char} {mapping : Srcmap}
+    (hm : MapOK content mapping)
+    (hnc : CodePair.NoCut '`' content (IState.init content mapping).posMax)
+    (hend : EndHyp cfg BC content (IState.init content mapping).posMax) (hmarks : MarksHyp cfg BC)
+    (hni : ¬ Interior content (IState.init content mapping).pos)
+    (hlt : (IState.init content mapping).pos < (IState.init content mapping).posMax) :
+    ∀ s1, skipTokenG cfg true fuel (IState.init content mapping) = .ok s1 →
+      TopInv cfg BC content (IState.init content mapping).posMax s1 := by
+  obtain ⟨lo, _, hg⟩ := init_good hm
+  have hi := hg.linv (memoB_init' content mapping)
+  intro s1 h1
+  exact skip_top backOK_BC hend hmarks fuel _ hi hlt (topInv_init (BC.empty _) hnc)
+    (fun _ hint => absurd hint hni) s1 h1
+
 end MdIt.Inline.CS
